@@ -17,6 +17,10 @@ steppers on every run (`c06.fixed` at `Rat` and at the Gaussian rationals `CQ`, 
     `fixedStepper_implicit_cn_stage_times`, `ab2Stepper_stage_times`
 (4) termination of the adaptive loops (ordered Archimedean field): `Shrinks`, `adjustDt_shrinks`, `adaptive_terminates`,
     `adaptive_finishes_exact_or_floor`, `eulerAdaptive_finishes_exact_or_floor`, `shrinks_ctlOf`, `adaptive_terminates_ctlOf`
+(5) whole adaptive calls depend on the rate only at the stage times of the iterations they record (any arithmetic):
+    `AOut.state`, `adaptiveLoop_succ`, `adaptiveLoop_trace_mono`, `adaptiveLoop_stage_times`, `adaptiveStepper_stage_times`,
+    `eulerAdaptiveLoop_succ`, `eulerAdaptiveLoop_trace_mono`, `eulerAdaptiveLoop_stage_times`, `eulerAdaptiveStepper_stage_times`,
+    `adaptiveStepper_rkf45_stage_times`, `adaptiveStepper_richardson_stage_times`
 -/
 set_option linter.unusedSimpArgs false
 set_option linter.unusedSectionVars false
@@ -715,5 +719,232 @@ theorem adaptive_terminates_ctlOf [Archimedean K] (tol dtMin dtMax : K) (pow : K
 example : ∀ e : ℝ, 1 < e → (fun _ _ => (1 : ℝ)) e (Generated.ctl_expo : ℝ) ≤ 1 := fun _ _ => le_rfl
 
 end termination
+
+/-! ## (5) the stage times of a whole adaptive call -/
+
+section adaptiveTimes
+variable {K : Type} [Add K] [Sub K] [Mul K] [Div K] [Neg K] [NatCast K] [IntCast K]
+variable [LT K] [DecidableLT K] [LE K] [DecidableLE K]
+
+/-- the loop variables an adaptive call ends with (returned, out of fuel, or raised) -/
+def AOut.state : AOut K → AState K
+  | .done s => s
+  | .fuel s => s
+  | .error _ s => s
+
+/-- one pass of `adaptiveLoop` (the body of the `while` loop) -/
+theorem adaptiveLoop_succ (C : Ctl K) (est : List K → K → K → List K × K) (tEnd : K) (n : Nat) (s : AState K) :
+    adaptiveLoop C est tEnd (n + 1) s =
+      (let h := dtStep C s.dtOpt tEnd s.t
+       let r := est s.us s.t h
+       let errRel := r.2 / C.tol
+       let acc : Bool := errRel ≤ ((1:Nat) : K)
+       let us' := if acc then r.1 else s.us
+       let t' := if acc then landT tEnd s.t h else s.t
+       let steps' := if acc then s.steps + 1 else s.steps
+       let tr := ⟨s.t, h, errRel, acc⟩ :: s.trace
+       if t' < tEnd then
+         match adjustDt C h errRel with
+         | .ok d => adaptiveLoop C est tEnd n ⟨us', t', d, steps', tr⟩
+         | .error e => .error e ⟨us', t', s.dtOpt, steps', tr⟩
+       else .done ⟨us', t', s.dtOpt, steps', tr⟩) := rfl
+
+/-- the trace only grows -/
+theorem adaptiveLoop_trace_mono (C : Ctl K) (est : List K → K → K → List K × K) (tEnd : K) :
+    ∀ (fuel : Nat) (s : AState K) (rec : Rec K), rec ∈ s.trace →
+      rec ∈ (adaptiveLoop C est tEnd fuel s).state.trace := by
+  intro fuel
+  induction fuel with
+  | zero => intro s rec h; exact h
+  | succ n ih =>
+    intro s rec h
+    rw [adaptiveLoop_succ]
+    dsimp only
+    split_ifs
+    all_goals first
+      | exact List.mem_cons_of_mem _ h
+      | (split <;> first
+          | exact ih _ rec (List.mem_cons_of_mem _ h)
+          | exact List.mem_cons_of_mem _ h)
+
+/-- **the stage times of a whole adaptive call** (generic loop: Runge-Kutta-Fehlberg, step doubling): if the
+error-estimating step built from a rate evaluates it at the times `stage t h` only, the call - every accepted and
+rejected iteration, the step-size control, the result - depends on the rate only through its values at the stage
+times of the iterations it records (`trace`: start time and step size of every iteration) -/
+theorem adaptiveLoop_stage_times (C : Ctl K) (mk : Rate K → List K → K → K → List K × K) (stage : K → K → List K)
+    (hmk : ∀ f g us t h, AgreeAt f g (stage t h) → mk f us t h = mk g us t h) (f g : Rate K) (tEnd : K) :
+    ∀ (fuel : Nat) (s : AState K),
+      (∀ rec ∈ (adaptiveLoop C (mk f) tEnd fuel s).state.trace, AgreeAt f g (stage rec.t rec.dt)) →
+      adaptiveLoop C (mk g) tEnd fuel s = adaptiveLoop C (mk f) tEnd fuel s := by
+  intro fuel
+  induction fuel with
+  | zero => intro s _; rfl
+  | succ n ih =>
+    intro s H
+    have key : mk g s.us s.t (dtStep C s.dtOpt tEnd s.t) = mk f s.us s.t (dtStep C s.dtOpt tEnd s.t) := by
+      refine (hmk f g _ _ _ ?_).symm
+      have hrec := H ⟨s.t, dtStep C s.dtOpt tEnd s.t,
+        (mk f s.us s.t (dtStep C s.dtOpt tEnd s.t)).2 / C.tol,
+        decide ((mk f s.us s.t (dtStep C s.dtOpt tEnd s.t)).2 / C.tol ≤ ((1:Nat) : K))⟩ ?_
+      · exact hrec
+      · rw [adaptiveLoop_succ]
+        dsimp only
+        split_ifs
+        all_goals first
+          | exact List.mem_cons_self ..
+          | (split <;> first
+              | exact adaptiveLoop_trace_mono C (mk f) tEnd n _ _ (List.mem_cons_self ..)
+              | exact List.mem_cons_self ..)
+    rw [adaptiveLoop_succ, adaptiveLoop_succ] at *
+    dsimp only at H ⊢
+    rw [key]
+    split_ifs at H ⊢
+    all_goals first
+      | rfl
+      | (split
+         · next d hd =>
+           rw [hd] at H
+           exact ih _ H
+         · rfl)
+
+/-- the same for a call of the stepper (empty trace at the start) -/
+theorem adaptiveStepper_stage_times (C : Ctl K) (mk : Rate K → List K → K → K → List K × K) (stage : K → K → List K)
+    (hmk : ∀ f g us t h, AgreeAt f g (stage t h) → mk f us t h = mk g us t h) (f g : Rate K)
+    (fuel : Nat) (us : List K) (tStart tEnd dt0 : K)
+    (H : ∀ rec ∈ (adaptiveStepper C (mk f) fuel us tStart tEnd dt0).state.trace, AgreeAt f g (stage rec.t rec.dt)) :
+    adaptiveStepper C (mk g) fuel us tStart tEnd dt0 = adaptiveStepper C (mk f) fuel us tStart tEnd dt0 :=
+  adaptiveLoop_stage_times C mk stage hmk f g tEnd fuel _ H
+
+/-- one pass of `eulerAdaptiveLoop` -/
+theorem eulerAdaptiveLoop_succ (C : Ctl K) (f : Rate K) (tEnd : K) (n : Nat) (e : EState K) :
+    eulerAdaptiveLoop C f tEnd (n + 1) e =
+      (let s := e.s
+       let half : K := ((1:Nat) : K) / ((2:Nat) : K)
+       let h := dtStep C s.dtOpt tEnd s.t
+       let large := List.zipWith (fun u r => u + h * r) s.us e.rate
+       let small0 := List.zipWith (fun u r => u + half * h * r) s.us e.rate
+       let small := small0.map (fun x => x + half * h * f x (s.t + half * h))
+       let errRel := maxAbs (List.zipWith (· - ·) large small) / C.tol
+       let acc : Bool := errRel ≤ ((1:Nat) : K)
+       let rate' := if acc then small.map (fun x => f x (s.t + h)) else e.rate
+       let us' := if acc then small else s.us
+       let t' := if acc then landT tEnd s.t h else s.t
+       let steps' := if acc then s.steps + 1 else s.steps
+       let tr := ⟨s.t, h, errRel, acc⟩ :: s.trace
+       if t' < tEnd then
+         match adjustDt C h errRel with
+         | .ok d => eulerAdaptiveLoop C f tEnd n ⟨⟨us', t', d, steps', tr⟩, rate'⟩
+         | .error err => .error err ⟨us', t', s.dtOpt, steps', tr⟩
+       else .done ⟨us', t', s.dtOpt, steps', tr⟩) := rfl
+
+theorem eulerAdaptiveLoop_trace_mono (C : Ctl K) (f : Rate K) (tEnd : K) :
+    ∀ (fuel : Nat) (e : EState K) (rec : Rec K), rec ∈ e.s.trace →
+      rec ∈ (eulerAdaptiveLoop C f tEnd fuel e).state.trace := by
+  intro fuel
+  induction fuel with
+  | zero => intro e rec h; exact h
+  | succ n ih =>
+    intro e rec h
+    rw [eulerAdaptiveLoop_succ]
+    dsimp only
+    split_ifs
+    all_goals first
+      | exact List.mem_cons_of_mem _ h
+      | (split <;> first
+          | exact ih _ rec (List.mem_cons_of_mem _ h)
+          | exact List.mem_cons_of_mem _ h)
+
+/-- **the stage times of a whole adaptive Euler call** (`euler.py` adaptive loop and its compiled copy): beyond the
+rate it starts with, the loop depends on the rate only through its values at `t_i + h_i/2` and `t_i + h_i` of the
+iterations `(t_i, h_i)` it performs - the rate of an accepted state is taken at the NEW time (fix F33) -/
+theorem eulerAdaptiveLoop_stage_times (C : Ctl K) (f g : Rate K) (tEnd : K) :
+    ∀ (fuel : Nat) (e : EState K),
+      (∀ rec ∈ (eulerAdaptiveLoop C f tEnd fuel e).state.trace,
+        AgreeAt f g [rec.t + ((1:Nat) : K) / ((2:Nat) : K) * rec.dt, rec.t + rec.dt]) →
+      eulerAdaptiveLoop C g tEnd fuel e = eulerAdaptiveLoop C f tEnd fuel e := by
+  intro fuel
+  induction fuel with
+  | zero => intro e _; rfl
+  | succ n ih =>
+    intro e H
+    have hag : AgreeAt f g [e.s.t + ((1:Nat) : K) / ((2:Nat) : K) * dtStep C e.s.dtOpt tEnd e.s.t,
+        e.s.t + dtStep C e.s.dtOpt tEnd e.s.t] := by
+      have hmem : ∀ (er : K) (ac : Bool), (⟨e.s.t, dtStep C e.s.dtOpt tEnd e.s.t, er, ac⟩ : Rec K)
+          ∈ (eulerAdaptiveLoop C f tEnd (n + 1) e).state.trace →
+          AgreeAt f g [e.s.t + ((1:Nat) : K) / ((2:Nat) : K) * dtStep C e.s.dtOpt tEnd e.s.t,
+            e.s.t + dtStep C e.s.dtOpt tEnd e.s.t] := fun er ac hm => H _ hm
+      rw [eulerAdaptiveLoop_succ] at hmem
+      dsimp only at hmem
+      generalize hE : maxAbs (List.zipWith (· - ·)
+          (List.zipWith (fun u r => u + dtStep C e.s.dtOpt tEnd e.s.t * r) e.s.us e.rate)
+          (List.map (fun x => x + ((1 : Nat) : K) / ((2 : Nat) : K) * dtStep C e.s.dtOpt tEnd e.s.t
+              * f x (e.s.t + ((1 : Nat) : K) / ((2 : Nat) : K) * dtStep C e.s.dtOpt tEnd e.s.t))
+            (List.zipWith (fun u r => u + ((1 : Nat) : K) / ((2 : Nat) : K) * dtStep C e.s.dtOpt tEnd e.s.t * r)
+              e.s.us e.rate))) / C.tol = errRel at hmem
+      refine hmem errRel (decide (errRel ≤ ((1 : Nat) : K))) ?_
+      split_ifs
+      all_goals first
+        | exact List.mem_cons_self ..
+        | (split <;> first
+            | exact eulerAdaptiveLoop_trace_mono C f tEnd n _ _ (List.mem_cons_self ..)
+            | exact List.mem_cons_self ..)
+    have k1 : ∀ x, g x (e.s.t + ((1:Nat) : K) / ((2:Nat) : K) * dtStep C e.s.dtOpt tEnd e.s.t)
+        = f x (e.s.t + ((1:Nat) : K) / ((2:Nat) : K) * dtStep C e.s.dtOpt tEnd e.s.t) :=
+      fun x => (hag _ (by simp) x).symm
+    have k2 : ∀ x, g x (e.s.t + dtStep C e.s.dtOpt tEnd e.s.t) = f x (e.s.t + dtStep C e.s.dtOpt tEnd e.s.t) :=
+      fun x => (hag _ (by simp) x).symm
+    rw [eulerAdaptiveLoop_succ, eulerAdaptiveLoop_succ] at *
+    dsimp only at H ⊢
+    simp only [k1, k2]
+    split_ifs at H ⊢
+    all_goals first
+      | rfl
+      | (split
+         · next d hd =>
+           rw [hd] at H
+           exact ih _ H
+         · rfl)
+
+/-- the same for a call of the adaptive Euler stepper: additionally the rate at `t_start` -/
+theorem eulerAdaptiveStepper_stage_times (C : Ctl K) (f g : Rate K) (fuel : Nat) (us : List K) (tStart tEnd dt0 : K)
+    (h0 : AgreeAt f g [tStart])
+    (H : ∀ rec ∈ (eulerAdaptiveStepper C f fuel us tStart tEnd dt0).state.trace,
+      AgreeAt f g [rec.t + ((1:Nat) : K) / ((2:Nat) : K) * rec.dt, rec.t + rec.dt]) :
+    eulerAdaptiveStepper C g fuel us tStart tEnd dt0 = eulerAdaptiveStepper C f fuel us tStart tEnd dt0 := by
+  have e0 : (fun u => g u tStart) = (fun u => f u tStart) := by
+    funext u; exact (h0 tStart (by simp) u).symm
+  unfold eulerAdaptiveStepper at H ⊢
+  rw [e0]
+  exact eulerAdaptiveLoop_stage_times C f g tEnd fuel _ H
+
+end adaptiveTimes
+
+section adaptiveTimesField
+variable {K : Type} [Field K] [CharZero K] [LT K] [DecidableLT K] [LE K] [DecidableLE K]
+
+/-- instance: **adaptive Runge-Kutta-Fehlberg** (any tableau `T`, in particular the extracted one, whose times are
+`rkfTimes_extracted`): a call depends on the rate only at `t_i + a_j h_i` for the iterations `(t_i, h_i)` it performs -/
+theorem adaptiveStepper_rkf45_stage_times (C : Ctl K) (T : RKFTab K) (f g : Rate K)
+    (fuel : Nat) (us : List K) (tStart tEnd dt0 : K)
+    (H : ∀ rec ∈ (adaptiveStepper C (rkf45Est T f) fuel us tStart tEnd dt0).state.trace,
+      AgreeAt f g (rkfTimes T rec.t rec.dt)) :
+    adaptiveStepper C (rkf45Est T g) fuel us tStart tEnd dt0 = adaptiveStepper C (rkf45Est T f) fuel us tStart tEnd dt0 :=
+  adaptiveStepper_stage_times C (fun f => rkf45Est T f) (rkfTimes T)
+    (fun f g us t h hfg => by
+      have e : (fun u => rkf45Step T f h u t) = (fun u => rkf45Step T g h u t) := by
+        funext u; exact (rkf45_stage_times_tab T f g h u t hfg).1
+      simp only [rkf45Est, e]) f g fuel us tStart tEnd dt0 H
+
+/-- instance: **step doubling with Euler steps** (`AdaptiveSolverBase`): rates at `t_i` and `t_i + h_i/2` only -/
+theorem adaptiveStepper_richardson_stage_times (C : Ctl K) (f g : Rate K)
+    (fuel : Nat) (us : List K) (tStart tEnd dt0 : K)
+    (H : ∀ rec ∈ (adaptiveStepper C (eulerRichardson f) fuel us tStart tEnd dt0).state.trace,
+      AgreeAt f g [rec.t, rec.t + rec.dt / 2]) :
+    adaptiveStepper C (eulerRichardson g) fuel us tStart tEnd dt0
+      = adaptiveStepper C (eulerRichardson f) fuel us tStart tEnd dt0 :=
+  adaptiveStepper_stage_times C (fun f => eulerRichardson f) (fun t h => [t, t + h / 2])
+    (fun f g us t h hfg => eulerRichardson_stage_times f g us t h hfg) f g fuel us tStart tEnd dt0 H
+
+end adaptiveTimesField
 
 end PdeVerif.Solvers
